@@ -130,10 +130,16 @@ func c02Write(v Version, human bool, seekable bool, user, owner string, variant 
 			data = []byte("BT /F1 12 Tf (line) Tj ET\n")
 		}
 		ref := w.Alloc()
-		dict := Dict{"Idx": Integer(i)}
+		dict := Dict{"Idx": Integer(i), "Note": String("a string in the stream dictionary"), "Deep": Dict{"S": Array{String("nested \x00(")}}}
 		sw, err := w.OpenStream(ref, dict, ch...)
 		if err != nil {
 			return nil, fmt.Errorf("OpenStream chain %d: %w", i, err)
+		}
+		if (i+variant)%3 == 0 {
+			// an object put while the stream is open is written after the stream
+			if err := put(w.Alloc(), Dict{"During": Integer(i), "S": String("put while a stream was open")}); err != nil {
+				return nil, fmt.Errorf("Put during stream: %w", err)
+			}
 		}
 		// chunked writes
 		for off := 0; off < len(data); {
@@ -149,7 +155,7 @@ func c02Write(v Version, human bool, seekable bool, user, owner string, variant 
 		if err := sw.Close(); err != nil {
 			return nil, fmt.Errorf("stream close chain %d: %w", i, err)
 		}
-		if len(dict) != 1 {
+		if len(dict) != 3 {
 			return nil, fmt.Errorf("OpenStream modified the caller's dict: %v", dict)
 		}
 		doc.streams = append(doc.streams, c02Stream{ref, dict, ch, data})
@@ -157,6 +163,16 @@ func c02Write(v Version, human bool, seekable bool, user, owner string, variant 
 	doc.unused = append(doc.unused, w.Alloc())
 	if err := put(b, Integer(42)); err != nil {
 		return nil, err
+	}
+	// objects with non-zero generation numbers
+	for gi, gen := range []uint16{1, 255, 256, 300, 65534} {
+		if (gi+variant)%2 == 0 {
+			continue
+		}
+		gref := NewReference(w.Alloc().Number(), gen)
+		if err := put(gref, Dict{"Gen": Integer(gen), "S": String("generation")}); err != nil {
+			return nil, fmt.Errorf("Put generation %d: %w", gen, err)
+		}
 	}
 	// the same value written twice
 	s1, s2 := w.Alloc(), w.Alloc()
@@ -249,7 +265,7 @@ func TestB2C02RoundTrip(t *testing.T) {
 					t.Errorf("B2-FAIL stream-missing %s ref=%v got=%v err=%v", doc.desc, s.ref, obj, err)
 					continue
 				}
-				if idx, _ := stm.Dict["Idx"].(Integer); idx != s.dict["Idx"] {
+				if idx, _ := stm.Dict["Idx"].(Integer); idx != s.dict["Idx"] || !Equal(stm.Dict["Note"], s.dict["Note"]) || !Equal(stm.Dict["Deep"], s.dict["Deep"]) {
 					t.Errorf("B2-FAIL stream-dict %s ref=%v dict=%v", doc.desc, s.ref, AsString(stm.Dict))
 				}
 				rd, err := DecodeStream(r, nil, stm)
@@ -606,6 +622,108 @@ func TestB2C03Structure(t *testing.T) {
 		}
 		if err := c03Streams(doc.bytes); err != nil {
 			t.Errorf("B2-FAIL stream-length %s: %v", doc.desc, err)
+		}
+	}
+	t.Logf("B2-CASES %d", cases)
+}
+
+// TestB2C03Rejected: calls the Writer rejects must not leave traces in the file.  After
+// a rejected OpenStream (every rejection path) or a stream closed with a wrong
+// caller-supplied /Length, either some later call reports an error, or the file that
+// Close produces passes the strict parser and the rejected number has no in-use entry.
+func TestB2C03Rejected(t *testing.T) {
+	cases := 0
+	type reject struct {
+		name string
+		call func(w *Writer, ref Reference) error
+	}
+	rejects := []reject{
+		{"crypt-filter-not-first", func(w *Writer, ref Reference) error {
+			_, err := w.OpenStream(ref, Dict{}, FilterFlate{}, FilterCryptIdentity{})
+			return err
+		}},
+		{"length-not-integer", func(w *Writer, ref Reference) error {
+			_, err := w.OpenStream(ref, Dict{"Length": Name("x")})
+			return err
+		}},
+		{"length-reference", func(w *Writer, ref Reference) error {
+			_, err := w.OpenStream(ref, Dict{"Length": w.Alloc()})
+			return err
+		}},
+		{"filter-not-in-version", func(w *Writer, ref Reference) error {
+			_, err := w.OpenStream(ref, Dict{}, &FilterJBIG2{})
+			return err
+		}},
+	}
+	for _, v := range []Version{V1_1, V1_4, V1_7, V2_0} {
+		for _, human := range []bool{false, true} {
+			for _, rj := range rejects {
+				cases++
+				desc := fmt.Sprintf("%s v=%v human=%v", rj.name, v, human)
+				var buf bytes.Buffer
+				w, err := NewWriter(&buf, v, &WriterOptions{HumanReadable: human})
+				if err != nil {
+					t.Errorf("B2-FAIL rejected-setup %s: %v", desc, err)
+					continue
+				}
+				a := w.Alloc()
+				w.GetMeta().Catalog.Pages = a
+				bad := w.Alloc()
+				later := w.Alloc()
+				failed := false
+				note := func(err error) {
+					if err != nil {
+						failed = true
+					}
+				}
+				note(w.Put(a, Dict{"Type": Name("Pages"), "Kids": Array{}, "Count": Integer(0)}))
+				if err := rj.call(w, bad); err == nil {
+					// the call was accepted in this configuration: nothing to check
+					continue
+				}
+				note(w.Put(later, Dict{"After": String("the rejected call")}))
+				note(w.Close())
+				if failed {
+					continue // the writer reported the problem
+				}
+				if err := c03Check(buf.Bytes()); err != nil {
+					t.Errorf("B2-FAIL rejected-call-leaves-trace %s: %v", desc, err)
+				}
+			}
+			// a stream closed with a wrong caller-supplied /Length
+			for _, n := range []int{100, 1023, 1024, 1500, 5000} {
+				for _, delta := range []int{-1, 1} {
+					cases++
+					desc := fmt.Sprintf("wrong-length n=%d delta=%d v=%v human=%v", n, delta, v, human)
+					var buf bytes.Buffer
+					w, _ := NewWriter(&buf, v, &WriterOptions{HumanReadable: human})
+					a := w.Alloc()
+					w.GetMeta().Catalog.Pages = a
+					w.Put(a, Dict{"Type": Name("Pages"), "Kids": Array{}, "Count": Integer(0)})
+					failed := false
+					sw, err := w.OpenStream(w.Alloc(), Dict{"Length": Integer(n + delta)})
+					if err != nil {
+						continue
+					}
+					if _, err := sw.Write(c02Data(n, 1)); err != nil {
+						failed = true
+					}
+					if err := sw.Close(); err != nil {
+						failed = true
+					}
+					if err := w.Close(); err != nil {
+						failed = true
+					}
+					if failed {
+						continue
+					}
+					if err := c03Streams(buf.Bytes()); err != nil {
+						t.Errorf("B2-FAIL wrong-length-accepted %s: %v", desc, err)
+					} else {
+						t.Errorf("B2-FAIL wrong-length-accepted %s: no error and the strict parser did not notice", desc)
+					}
+				}
+			}
 		}
 	}
 	t.Logf("B2-CASES %d", cases)
